@@ -142,6 +142,32 @@ CHECKS = {
         note="The lattice {-inf,-2,-1,-0.0,0.0,1,2,3,+inf,NaN} stands for all floats (every order type of four prices, every sign class of volume).",
         technique="TLA+ builder state machine (DataItem.tla) explored exhaustively by TLC; one behaviour per state / transition replayed against the real builder",
         ref="6 (C16)"),
+    "C14": dict(
+        text="On the specification TLC checks the theorem itself: for 21 kinds (RSI excluded) the exact reference of the history a*h+b equals the reference of h moved as "
+             "the dimension table says (level, spread, variance, ratio, volume), for (a,b) in {(2,0),(3,0),(2,-1),(3,2),(1,2)} on every input sequence up to length 4-5, and "
+             "MAX(x) = -MIN(-x) (invariants Covariant, MinMaxDual); on the real crate every transition of closed / depth-bounded models and seeded streams is run at four "
+             "base units and again scaled by 2^k (k=-40..40) and by 3, 0.7, 1e3, 1/3 and shifted by 1e3, 2^20, 1e6+0.5 units, and outputs are compared as their dimension "
+             "says: 1e-12 relative for powers of two, 1e-9 otherwise.",
+        note="'Unchanged within rounding' under a shift is read as 1e-9 relative plus 1e-13 * shifted magnitude (* spread for variances) per step; ratios use the spec's condition number.",
+        technique=TECH + "covariance theorem model-checked on the reference; metamorphic re-runs of TLC behaviours at related price units on the real crate",
+        ref="6 (C14)"),
+    "C15": dict(
+        text="TaRef defines each composite twice -- by its documented formula and as the composition of the reference semantics of its public parts -- and the invariant "
+             "PartsAgree is model-checked on closed / depth-bounded models; every transition and seeded streams of 3 000-15 000 inputs are replayed with the real composite "
+             "and real, separately constructed parts wired the same way (SMA+SD, EMA of FAST_STOCH, EMA of TR, three EMAs for MACD/PPO, EMA+ATR, MAX+MIN+ATR, SMA+MAD of "
+             "the typical price, and RSI as two EMAs seeded 0.1), compared under the spec's tolerance classes.",
+        note="The hand wiring in the harness mirrors PartsStep; a vacuity guard requires at least 4 500 composite-vs-parts comparisons.",
+        technique=TECH + "two independent definitions of each composite checked equal by TLC; real composite vs hand-wired real parts on every replayed behaviour",
+        ref="6 (C15)"),
+    "C18": dict(
+        text="Streams.tla (with ramp segments) describes strictly falling / rising, alternating, flat-after-activity, saw-fall and random streams of 10^5 (quick) / 10^6 "
+             "(thorough) inputs for all 22 kinds and periods sampled from 1..512; the harness expands them into real calls and measures, with a per-thread counting "
+             "allocator, the net heap bytes allocated inside next() since construction -- which must stay under the spec's SizeBound(kind, p) -- and samples the bincode "
+             "length (every step up to 300, then every 997th) against the same bound and for constancy; plus scripted short runs with Save after the first, second, n-th, "
+             "(n+1)-th and last input for periods 1..512.",
+        note="Heap use is measured inside the harness process around each call of next(); the specification supplies the bound and the stream shapes.",
+        technique="TLA+ intensional stream shapes (Streams.tla) and the SizeBound table; heap growth and serialized size measured on real runs of up to 10^6 calls",
+        ref="6 (C18)"),
 }
 
 NOT_APPLICABLE = {
